@@ -72,6 +72,27 @@ theorem C05_history_zero (ops : List (Op V)) :
     Inv (run (zeroMap : CMap V) ops) ∧ abs (run (zeroMap : CMap V) ops) = arun [] ops :=
   run_refines _ inv_zero ops
 
+/-- `MapFromItems(ps...)` (a `NewMap` followed by one `Set` per item, repeated keys included): the map the
+    list of pairs describes — first position, last value — and every later history continues from there. -/
+def fromItems (ps : List (String × V)) : CMap V := run newMap (ps.map fun p => Op.set p.1 p.2)
+
+theorem C05_from_items (ps : List (String × V)) (ops : List (Op V)) :
+    Inv (run (fromItems ps) ops) ∧
+    abs (run (fromItems ps) ops) = arun (ps.foldl (fun l p => aset l p.1 p.2) []) ops := by
+  have h0 := run_refines (newMap : CMap V) inv_new (ps.map fun p => Op.set p.1 p.2)
+  have h1 := run_refines (fromItems ps) h0.1 ops
+  refine ⟨h1.1, ?_⟩
+  rw [h1.2]
+  have : abs (fromItems ps) = ps.foldl (fun l p => aset l p.1 p.2) [] := by
+    unfold fromItems
+    rw [h0.2]
+    have hab : abs (newMap : CMap V) = [] := rfl
+    rw [hab]
+    unfold arun
+    rw [List.foldl_map]
+    rfl
+  rw [this]
+
 /-! ### Renames from inside an iteration callback -/
 
 theorem C05_rangeReplace {E : Type} {c : CMap V} (h : Inv c)
